@@ -11,7 +11,6 @@ import (
 	"github.com/elastos/Elastos.ELA/core/types"
 	common2 "github.com/elastos/Elastos.ELA/core/types/common"
 	crstate "github.com/elastos/Elastos.ELA/cr/state"
-	dstate "github.com/elastos/Elastos.ELA/dpos/state"
 )
 
 // Fixture is one CR committee on the light node tier: the committee is driven directly with
@@ -44,7 +43,7 @@ func NewFixture(p *config.Configuration) *Fixture {
 	f.register(f.C)
 	f.Chain = &blockchain.BlockChain{}
 	f.Chain.SetCRCommittee(f.C)
-	f.Chain.SetState(dstate.NewState(p, nil, nil, nil, func() bool { return false }, nil, nil, nil, nil, nil, nil, nil))
+	f.Chain.SetState(dposState)
 	return f
 }
 
